@@ -3,7 +3,7 @@
 use super::c01::case_input;
 use super::c14::empty_struct_class;
 use crate::common::{self, Comp, Fail, Space};
-use crate::driver::{norm_msg, CaseOut, Ctx, Monitor, Tier};
+use crate::driver::{Lane, LaneKind, norm_msg, CaseOut, Ctx, Monitor, Tier};
 use serde_json::json;
 
 pub struct C02 {
@@ -28,6 +28,12 @@ impl Monitor for C02 {
 	}
 	fn rule(&self) -> String {
 		"C01's replay space (fixtures, all 784 versions, layout x shape matrix incl. zero frames / no metadata / no Game End / no gecko / doubled end / empty port set, random histories) x compression {none, LZ4, ZSTD} x hash {requested, not}. Steps observed separately: slippi::read -> peppi::write -> peppi::read -> slippi::write; oracle: final bytes == input bytes, hash and quirks after the trip == before. One evaluation = one (file, compression, hash) triple. distinct = workload classes x compression x hash.".into()
+	}
+	fn lanes(&self, _tier: Tier) -> Vec<Lane> {
+		vec![
+			Lane { kind: LaneKind::Valgrind, name: "roundtrip-slpp", shards: (0..8).collect(), nshards: 8 },
+			Lane { kind: LaneKind::Miri, name: "roundtrip-slpp", shards: (0..25).collect(), nshards: 25 },
+		]
 	}
 	fn n_cases(&self, ctx: &Ctx) -> usize {
 		self.fixtures.len() + ctx.tier.pick(&self.quick, &self.thorough).len()
